@@ -197,8 +197,16 @@ def duplicate_names(tree, rng):
 
 def spell(i):
     """the data name of item i: upper, mixed or lower case (the $anchor keeps the spelling of the declaration; every
-    reference - REDEFINES, DEPENDING ON - is spelled like the declaration)"""
-    return [f"N{i}", f"Nm-{i}", f"fld-{i}x", f"N{i}", f"Q{i}-Cnt"][i % 5]
+    reference - REDEFINES, DEPENDING ON - is spelled like the declaration); names are pairwise distinct (the id is part of each)"""
+    plain = [f"N{i}", f"Nm-{i}", f"fld-{i}x", f"N{i}", f"Q{i}-Cnt"][i % 5]
+    if i % 3 != 2:
+        return plain
+    # every third item: a USAGE word, PIC / PICTURE or USAGE / IS inside the name - at the start (followed by a hyphen), in the
+    # middle and at the end (estruct's second parse reads the whole entry text, the data name included: only the item's own
+    # USAGE and PICTURE clauses may decide its width; before the repair of estruct.clause_pattern the name did)
+    return [f"COMP-AMT-{i}", f"EMP-COMPANY-{i}", f"WS-COMP-{i}", f"TOT-BINARY-{i}", f"N{i}-DISPLAY", f"X{i}-PIC", f"PACKED-DECIMAL-Q{i}",
+            f"Q{i}-COMP-3", f"BINARY-{i}", f"Old-COMPUTATIONAL-{i}", f"n{i}-PICTURE", f"USAGE-IS-COMP-{i}", f"DISPLAY-{i}-X",
+            f"N{i}-PACKED-DECIMAL"][(i // 3) % 14]
 
 
 def extra_clauses(n):
